@@ -35,7 +35,7 @@ type action struct {
 	Slow       bool
 	Tag        int // >= 0: index of a well-formed, validly signed reply (told-tracking)
 	// park: hold the connection open (the client has no read deadline) until Release
-	// is closed, then fail it with Then ("eof" | "reset")
+	// is closed, then go on with Then ("eof" | "reset" | "reply" with Reply)
 	Parked  func()
 	Release chan struct{}
 	Then    string
